@@ -516,6 +516,7 @@ func (c *Cache) GetSpecDirErrors() map[string]error {
 type watch struct {
 	watcher *fsnotify.Watcher
 	tracked map[string]bool
+	watched map[string]os.FileInfo
 }
 
 // Setup monitoring for the given Spec directories.
@@ -525,6 +526,7 @@ func (w *watch) setup(dirs []string, dirErrors map[string]error) {
 		err error
 	)
 	w.tracked = make(map[string]bool)
+	w.watched = make(map[string]os.FileInfo)
 	for _, dir = range dirs {
 		w.tracked[dir] = false
 	}
@@ -553,6 +555,7 @@ func (w *watch) stop() {
 
 	_ = w.watcher.Close()
 	w.tracked = nil
+	w.watched = nil
 }
 
 // Watch Spec directory changes, triggering a refresh if necessary.
@@ -634,8 +637,19 @@ func (w *watch) addWatch(dir string) error {
 	}
 	if err != nil {
 		_ = w.watcher.Remove(dir)
+		return err
 	}
-	return err
+	w.watched[dir] = after
+	return nil
+}
+
+// Check if the given tracked directory is still what we are watching. If a
+// parent of the directory gets renamed or the directory gets replaced without
+// us getting an event about it, we end up watching something else than what
+// the directory path refers to.
+func (w *watch) isCurrent(dir string) bool {
+	now, err := os.Stat(dir)
+	return err == nil && os.SameFile(w.watched[dir], now)
 }
 
 // Update watch with pending/missing or removed directories.
@@ -657,7 +671,10 @@ func (w *watch) update(dirErrors map[string]error, removed ...string) bool {
 
 	for dir, ok = range w.tracked {
 		if ok {
-			continue
+			if w.isCurrent(dir) {
+				continue
+			}
+			_ = w.watcher.Remove(dir)
 		}
 
 		err = w.addWatch(dir)
